@@ -13,7 +13,7 @@ import os, sys, subprocess, shutil, tempfile, json, importlib.util, glob
 
 HERE = os.path.dirname(os.path.abspath(__file__))
 REPO = os.environ.get("REPO", "/repo")
-BIN = "/verif/bin/p9pcheck"
+BIN = os.environ.get("P9PCHECK_BIN", "/verif/bin/p9pcheck")
 ENV = dict(os.environ, GOFLAGS="-mod=mod", GOPROXY="off", GOSUMDB="off", GOTOOLCHAIN="local", GOWORK="off")
 
 def load_mutants():
